@@ -1175,6 +1175,9 @@ func runC05(tier, replay string) int {
 			r.Sample(map[string]any{"sequence": c.Name, "shape": res.Shape, "counts": res.Counts, "log_tail": res.LogTail})
 		}
 	}
+	if replay == "" && !cliOnly {
+		c05ConcurrentClock(r)
+	}
 	if (r.Thorough() && replay == "") || cliOnly {
 		for _, v := range []string{"cache-kept", "cache-deleted-too", "comment-first"} {
 			c05CLISession(r, v)
